@@ -26,6 +26,7 @@ type Peer struct {
 	CConn  *websocket.Conn // client side
 	reqs   chan Req
 	wg     sync.WaitGroup
+	wmu    sync.Mutex // a websocket connection takes one writer at a time
 }
 
 // Req is a request frame seen by the peer.
@@ -97,6 +98,8 @@ func (p *Peer) NextReq(d time.Duration) (Req, bool) {
 
 // Send writes one binary frame to the client.
 func (p *Peer) Send(frame []byte) error {
+	p.wmu.Lock()
+	defer p.wmu.Unlock()
 	return p.Conn.WriteMessage(websocket.BinaryMessage, frame)
 }
 
@@ -181,6 +184,7 @@ type FakeProxy struct {
 	EP      *sniproxy.Endpoint
 	Replies chan []byte // reply frames written by the endpoint
 	hang    chan struct{}
+	wmu     sync.Mutex
 }
 
 // NewFakeProxy starts a websocket server and lets a real endpoint (legacy mode) dial it.
@@ -237,6 +241,8 @@ func NewFakeProxyOpt(opt *sniproxy.Options, ownDialer bool) (*FakeProxy, error) 
 
 // Request writes one request frame id | typ | body.
 func (p *FakeProxy) Request(id uint64, typ uint8, body []byte) error {
+	p.wmu.Lock()
+	defer p.wmu.Unlock()
 	return p.Conn.WriteMessage(websocket.BinaryMessage, append(append(U64(id), typ), body...))
 }
 
